@@ -93,6 +93,11 @@ Definition mem_grow_py (m : pymem) (amount : Z) : result (Z * pymem) :=
   guard (0 <=? amount * PAGE) (Internal ValueErrorI) (          (* bytes(negative) raises ValueError *)
   Ok (old, {| heap := heap m ++ repeat 0 (Z.to_nat (amount * PAGE)); stack := stack m;
               mem0 := mem0 m; maxp := maxp m |})).
+(* the memory.grow INSTRUCTION: wasm_rt_memory_grow = ModuleInstance.memory_grow(idx, amount) -> memory.grow(amount).
+   [mem_grow_instr false] is the current code (operand passed on as a signed int), [mem_grow_instr true] the repaired one of
+   fixes/C22-memory-grow-unsigned.diff (amount &= 0xFFFFFFFF); the check probes memory.grow(-1) to see which one is live. *)
+Definition mem_grow_instr (masked : bool) (m : pymem) (amount : Z) : result (Z * pymem) :=
+  mem_grow_py m (if masked then Z.land amount 4294967295 else amount).
 (* data segment: memory.write(offset, data) = rt.write_mem(mem0 + offset, data) *)
 Definition mem_write (m : pymem) (off : Z) (data : list Z) : result pymem :=
   write_mem m (mem0 m + off) data.
